@@ -3,6 +3,7 @@ import core
 from core import hx, gen_int, gen_mag, gen_words_len
 
 ID = "C09"
+READY = True
 ORACLE = "c09"
 HARNESS_BIN = "c09"
 NCASES = {"quick": 6000, "thorough": 150000}
